@@ -316,9 +316,18 @@ class C11(Check):
                 srcname = top[-1] if top else (apps[-1] if apps else None)
                 emits = bool(top) and not any(isinstance(x, (ast.Continue, ast.Break)) for x in ast.walk(el[0])) and \
                     not any(isinstance(x, ast.If) and any(isinstance(y, ast.Call) and norm(y.func) == f"{srcname}.append" for y in ast.walk(x)) for x in el[0].body)
-            appended = srcname is not None and any(
-                (isinstance(s_, ast.If) and norm(s_.test) in (f"len({srcname}) > 0", srcname, f"len({srcname}) != 0") and f"source.append('\\n'.join({srcname}))" in norm(s_))
-                or (isinstance(s_, ast.Expr) and norm(s_.value) in (f"source.extend({srcname})", f"source.append('\\n'.join({srcname}))")) for s_ in gbody)
+            def emits_list(s_) -> bool:
+                """statement puts '\n'.join(<srcname>) (directly or as one of several sections) into the source"""
+                t_ = norm(s_)
+                if srcname not in {n_.id for n_ in ast.walk(s_) if isinstance(n_, ast.Name)}:
+                    return False
+                if not (("source.append(" in t_ or "source.extend(" in t_) and ("'\\n'.join(" in t_ or f"source.extend({srcname})" in t_)):
+                    return False
+                # no filter other than emptiness of the section
+                tests = [n_.test for n_ in ast.walk(s_) if isinstance(n_, ast.If)] + [i_ for n_ in ast.walk(s_) if isinstance(n_, (ast.GeneratorExp, ast.ListComp)) for g_ in n_.generators for i_ in g_.ifs]
+                return all(norm(x).startswith("len(") or isinstance(x, ast.Name) for x in tests)
+
+            appended = srcname is not None and any(emits_list(s_) for s_ in gbody if isinstance(s_, (ast.If, ast.Expr)))
             if emits and appended:
                 self.holds("K4", MOD, GEN, f"emitted-{kind}", el[0], f"one builder call per entry of model.{kind}, joined into the source")
             else:
